@@ -35,14 +35,19 @@ type Opts struct {
 	Slice       map[string]uint64
 	Peers       []string // cpiface.peers: control-plane nodes the agent itself associates with at start-up
 	PeerNames   []string // set on the loaded configuration through the Go API (the file loader only admits IP literals)
-	P4          bool
-	P4Addr      string // host:port of the fake P4Runtime server
+	P4          bool   // UP4 datapath against the harness' own P4Runtime server
+	P4Slice     int
+	P4DefaultTC int
+	P4QfiTC     map[string]int // qfi_tc_mapping
+	P4Clear     bool           // clear_state_on_restart
+	P4Access    string         // access_ip (CIDR)
 	Extra       map[string]interface{}
 }
 
 type Sys struct {
 	Opts     Opts
 	Bess     *FakeBess
+	P4       *FakeP4
 	N4       string // agent's N4 address (127.x.y.1)
 	prefix   string // 127.x.y.
 	HTTPPort int
@@ -92,6 +97,19 @@ func New(o Opts) (*Sys, error) {
 	s.Bess = NewFakeBess()
 	if err := s.Bess.Start(); err != nil {
 		return nil, err
+	}
+	if o.P4 {
+		repo := os.Getenv("VERIF_REPO")
+		if repo == "" {
+			repo = "/repo"
+		}
+		s.P4, err = NewFakeP4(filepath.Join(repo, "conf/p4/bin/p4info.txt"))
+		if err != nil {
+			return nil, err
+		}
+		if err := s.P4.Start(); err != nil {
+			return nil, err
+		}
 	}
 	// a free TCP port for HTTP
 	l, err := net.Listen("tcp", "127.0.0.1:0")
@@ -196,10 +214,19 @@ func (s *Sys) confJSON() []byte {
 		c["cpiface"].(map[string]interface{})["peers"] = o.Peers
 	}
 	if o.P4 {
-		host, port, _ := net.SplitHostPort(o.P4Addr)
-		c["mode"] = ""
+		host, port, _ := net.SplitHostPort(s.P4.Addr)
+		delete(c, "mode")
 		c["enable_p4rt"] = true
-		c["p4rtciface"] = map[string]interface{}{"access_ip": "198.18.0.1/32", "p4rtc_server": host, "p4rtc_port": port, "slice_id": 0, "default_tc": 3}
+		acc := o.P4Access
+		if acc == "" {
+			acc = "198.18.0.1/32"
+		}
+		pc := map[string]interface{}{"access_ip": acc, "p4rtc_server": host, "p4rtc_port": port, "slice_id": o.P4Slice, "default_tc": o.P4DefaultTC,
+			"clear_state_on_restart": o.P4Clear}
+		if o.P4QfiTC != nil {
+			pc["qfi_tc_mapping"] = o.P4QfiTC
+		}
+		c["p4rtciface"] = pc
 	}
 	for k, v := range o.Extra {
 		c[k] = v
@@ -401,6 +428,20 @@ func (s *Sys) Stats() map[string]int {
 	return m
 }
 
+// P4Observe collects the Write RPCs since the last call, the switch state and the plug-in's pool occupancy.
+func (s *Sys) P4Observe() *P4Obs {
+	if s.P4 == nil {
+		return nil
+	}
+	o := &P4Obs{Rpcs: s.P4.TakeRpcs()}
+	o.Entries, o.Meters = s.P4.Snapshot()
+	o.Stats = map[string]int{}
+	if r, ok := s.Ctl("p4stats", 3*time.Second); ok {
+		_ = json.Unmarshal([]byte(r), &o.Stats)
+	}
+	return o
+}
+
 // Kill terminates the child with SIGKILL (a crash of the agent).
 func (s *Sys) Kill() {
 	s.mu.Lock()
@@ -416,6 +457,9 @@ func (s *Sys) Kill() {
 func (s *Sys) Close() {
 	s.Kill()
 	s.Bess.Stop()
+	if s.P4 != nil {
+		s.P4.Stop()
+	}
 	if s.notifyLn != nil {
 		s.notifyLn.Close()
 	}
@@ -452,6 +496,7 @@ type Peer struct {
 	Fresh    bool
 	AnswerHB bool     // answer the agent's own Heartbeat Requests
 	Inbox    [][]byte // agent-originated requests seen meanwhile (heartbeats, session reports)
+	pastBarriers map[uint32]bool
 }
 
 // service handles an agent-originated request; it reports whether r was one.
@@ -576,8 +621,13 @@ func (p *Peer) Exchange(b []byte, wait time.Duration) (replies [][]byte, barrier
 		}
 		p.Fresh = false
 	}
+	barriers := map[uint32]bool{}
+	if p.pastBarriers == nil {
+		p.pastBarriers = map[uint32]bool{}
+	}
 	for attempt := 0; attempt < 3; attempt++ {
 		seq := p.NextSeq() | 0x800000
+		barriers[seq] = true
 		hb := message.NewHeartbeatRequest(seq, ie.NewRecoveryTimeStamp(time.Unix(1700000000, 0)), nil)
 		if err := p.SendRaw(Marshal(hb)); err != nil {
 			return replies, false
@@ -596,8 +646,19 @@ func (p *Peer) Exchange(b []byte, wait time.Duration) (replies [][]byte, barrier
 				}
 				continue
 			}
-			if m, err := message.Parse(r); err == nil && m.MessageType() == message.MsgTypeHeartbeatResponse && m.Sequence() == seq {
+			// the answer to any of this exchange's barriers will do: datagrams are handled in order, so the request was handled before it
+			if m, err := message.Parse(r); err == nil && m.MessageType() == message.MsgTypeHeartbeatResponse && barriers[m.Sequence()] {
+				for k := range barriers {
+					if k != m.Sequence() {
+						p.pastBarriers[k] = true
+					}
+				}
 				return replies, true
+			}
+			// a late answer to a barrier of an earlier exchange
+			if m, err := message.Parse(r); err == nil && m.MessageType() == message.MsgTypeHeartbeatResponse && p.pastBarriers[m.Sequence()] {
+				delete(p.pastBarriers, m.Sequence())
+				continue
 			}
 			if p.service(r) {
 				continue
